@@ -39,7 +39,7 @@ ASSUMPTIONS = [
 ]
 MIN_NONTRIVIAL = {"quick": 6000, "thorough": 25000}
 MIN_OUTCOMES = {"quick": 8000, "thorough": 50000}
-MIN_SUB_TRACES = {"matmul": 300, "matmul3": 1000, "transform": 500, "as_matrix": 60, "euler": 500, "euler_order": 30, "euler_angles": 50, "quat": 300, "getset": 100}
+MIN_SUB_TRACES = {"matmul": 300, "matmul3": 1000, "transform": 500, "as_matrix": 60, "reuse": 100, "euler": 500, "euler_order": 30, "euler_angles": 50, "quat": 300, "getset": 100}
 
 EPS = {"f32": 2.0 ** -23, "f64": 2.0 ** -52}
 DT = {"f32": torch.float32, "f64": torch.float64, "i64": torch.int64}
@@ -97,9 +97,28 @@ class _Ctx:
     def bad(self, sig, detail):
         self.out.append((sig, detail))
 
-    def call(self, sig, fn, *a, undef_types=(NotImplementedError,), **kw):
+    def call(self, sig, fn, *a, undef_types=(NotImplementedError,), restore=True, **kw):
+        """Guarded implementation call. Every tensor passed as an argument is fingerprinted bit for bit before and after
+        the call: a changed operand no longer denotes the map it was given as ("converting ... does not change the map",
+        "composition equals sequential application" for the operands as given) -> <sig>/operand-mutated. The operand is
+        then restored (unless restore=False) so that the remaining judgements of the case are about the return values."""
         self.acc.trans()
+        ops = [x for x in _flat_tensors(a) + _flat_tensors(tuple(kw.values()))]
+        before = [(t, t.detach().clone(), tensor_bytes(t)) for t in ops]
         st, res = guarded(fn, *a, **kw)
+        for i, (t, saved, fp) in enumerate(before):
+            if tensor_bytes(t) != fp:
+                self.bad(f"{sig}/operand-mutated", f"argument tensor #{i} of shape {tuple(t.shape)} was modified in place by the call (max change {float((t.detach().double() - saved.double()).abs().max()):.3g})")
+                self.acc.outcome("operand-mutated", sig)
+                if restore:
+                    # the return value may alias the operand: detach it from the restore
+                    if st == "ok":
+                        if isinstance(res, torch.Tensor):
+                            res = res.detach().clone()
+                        elif isinstance(res, tuple):
+                            res = tuple(r.detach().clone() if isinstance(r, torch.Tensor) else r for r in res)
+                    with torch.no_grad():
+                        t.copy_(saved)
         if st == "raises":
             if isinstance(res, undef_types):
                 self.acc.undef(type(res).__name__ + ":" + sig.split("/")[1])
@@ -108,6 +127,14 @@ class _Ctx:
             self.acc.outcome("raise", sig, type(res).__name__)
             return None
         return res
+
+
+def _flat_tensors(x):
+    if isinstance(x, torch.Tensor):
+        return [x]
+    if isinstance(x, (list, tuple)):
+        return [t for y in x for t in _flat_tensors(y)]
+    return []
 
 
 def _cmp(ctx, sig, got, exp, tol, what, kind="value"):
@@ -160,7 +187,7 @@ def case_matmul(case, ctx):
     eps = EPS["f64"] if dk == "f64" else EPS["f32"]
     for fn_name in ("homogeneous_matmul", "hmm"):
         sig = f"C08/matmul/fn={fn_name}/a={fa}/b={fb}"
-        res = ctx.call(sig, getattr(L, fn_name), a.clone(), b.clone())
+        res = ctx.call(sig, getattr(L, fn_name), a, b)
         ctx.acc.trace("matmul")
         if res is None:
             continue
@@ -196,7 +223,7 @@ def case_matmul3(case, ctx):
     }
     for mode, fn in modes.items():
         sig = f"C08/matmul3/mode={mode}/a={fs[0]}/b={fs[1]}/c={fs[2]}"
-        res = ctx.call(sig, fn, *[o.clone() for o in ops])
+        res = ctx.call(sig, fn, *ops)
         ctx.acc.trace("matmul3", depth=3)
         if res is None:
             continue
@@ -255,16 +282,16 @@ def case_transform(case, ctx):
     for vectors in (False, True):
         vf = "T" if vectors else "F"
         sig = f"C08/transform/T={ft}/P={pf}/vectors={vf}"
-        fns = {"homogeneous_transform": lambda: L.homogeneous_transform(t.clone(), p.clone(), vectors=vectors)}
+        fns = {"homogeneous_transform": (L.homogeneous_transform, {"vectors": vectors})}
         if case.get("aliases"):
-            fns["apply_transform"] = lambda: A.apply_transform(t.clone(), p.clone(), vectors=vectors)
-            fns["transform_vectors" if vectors else "transform_points"] = (lambda: A.transform_vectors(t.clone(), p.clone())) if vectors else (lambda: A.transform_points(t.clone(), p.clone()))
-        for name, fn in fns.items():
+            fns["apply_transform"] = (A.apply_transform, {"vectors": vectors})
+            fns["transform_vectors" if vectors else "transform_points"] = (A.transform_vectors if vectors else A.transform_points, {})
+        for name, (fn, fkw) in fns.items():
             s2 = sig if name == "homogeneous_transform" else f"{sig}/alias={name}"
             if fexp is None:
                 ctx.acc.undef("transform:documented ValueError (leading sizes neither 1 nor equal)")
                 continue
-            res = ctx.call(s2, fn)
+            res = ctx.call(s2, fn, t, p, **fkw)
             ctx.acc.trace("transform")
             if res is None:
                 continue
@@ -298,17 +325,17 @@ def case_compose_apply(case, ctx):
         return
     ctx.acc.trace("transform", depth=2)
     for fn_name in ("hmm", "homogeneous_matmul"):
-        c = ctx.call(f"{sig}/{fn_name}", getattr(L, fn_name), a.clone(), b.clone())
+        c = ctx.call(f"{sig}/{fn_name}", getattr(L, fn_name), a, b)
         if c is None:
             continue
-        direct = ctx.call(f"{sig}/{fn_name}/apply-composite", L.homogeneous_transform, c, p.clone())
+        direct = ctx.call(f"{sig}/{fn_name}/apply-composite", L.homogeneous_transform, c, p)
         if direct is None:
             continue
-        step1 = ctx.call(sig + "/apply-b", L.homogeneous_transform, b.clone(), p.clone())
+        step1 = ctx.call(sig + "/apply-b", L.homogeneous_transform, b, p)
         if step1 is None:
             return
         # after the first step a batch of N point sets may exist; the second step pairs them item by item
-        step2 = ctx.call(sig + "/apply-a", L.homogeneous_transform, a.clone(), step1)
+        step2 = ctx.call(sig + "/apply-a", L.homogeneous_transform, a, step1)
         if step2 is None:
             return
         ctx.acc.outcome("compose_apply", D, fa, fb, pf, fn_name, tensor_bytes(direct))
@@ -334,11 +361,11 @@ def case_as_matrix(case, ctx):
     kw = {}
     tol = C * EPS["f32"] * (float(np.abs(exp).max()) + 8)
     if mode == "as_homogeneous_matrix":
-        res = ctx.call(sig, L.as_homogeneous_matrix, t.clone())
+        res = ctx.call(sig, L.as_homogeneous_matrix, t)
     elif mode == "as_homogeneous_matrix[f64]":
-        res = ctx.call(sig, L.as_homogeneous_matrix, t.clone(), dtype=torch.float64)
+        res = ctx.call(sig, L.as_homogeneous_matrix, t, dtype=torch.float64)
     elif mode == "as_homogeneous_tensor":
-        r = ctx.call(sig, L.as_homogeneous_tensor, t.clone())
+        r = ctx.call(sig, L.as_homogeneous_tensor, t)
         if r is None:
             return
         res, typ = r
@@ -358,7 +385,7 @@ def case_as_matrix(case, ctx):
         else:  # "(lead,D)"
             voff = _dyadic(int(np.prod(lead + (D,))), 14, seed).reshape(lead + (D,))
             off = torch.tensor(voff, dtype=torch.float32)
-        res = ctx.call(sig, L.homogeneous_matrix, t.clone(), off)
+        res = ctx.call(sig, L.homogeneous_matrix, t, off)
         exp = exp.copy()
         exp[..., :D, D] += voff
     if res is None:
@@ -1026,7 +1053,66 @@ def case_getset(case, ctx):
                 return
 
 
+REUSE_FNS = ["as_homogeneous_matrix", "homogeneous_matrix:none", "homogeneous_matrix:scalar", "homogeneous_matrix:(D,)", "homogeneous_matrix:(lead,D)",
+             "homogeneous_matmul", "hmm", "homogeneous_transform", "homogeneous_transform[vectors]"]
+
+
+def case_reuse(case, ctx):
+    """The same operand objects used twice: (1) two identical calls return bit-identical results; (2) after the operand
+    went through as_homogeneous_matrix / homogeneous_matrix(+offset) / a composition, composing and applying the SAME
+    object still equals sequential application of the transformation it was given as."""
+    from deepali.core import linalg as L
+
+    D, f, fn, seed = case["D"], case["form"], case["fn"], case["seed"]
+    t, vt = make_operand(f, D, 7, seed, "f32")
+    b, vb = make_operand("A(D,D)", D, 8, seed, "f32")
+    p, vp = _points("(D,)", D, seed, "f32")
+    sig = f"C08/reuse/fn={fn}/form={f}"
+    ctx.acc.state("reuse", D, f, fn)
+    ctx.acc.trace("reuse", depth=4)
+    lead = tuple(t.shape[:-2]) if t.ndim > 1 else ()
+    if fn.startswith("homogeneous_matrix"):
+        k = fn.split(":")[1]
+        off = {"none": None, "scalar": torch.tensor(1.25), "(D,)": torch.tensor(_dyadic(D, 13, seed), dtype=torch.float32),
+               "(lead,D)": torch.tensor(_dyadic(int(np.prod(lead + (D,))), 14, seed).reshape(lead + (D,)), dtype=torch.float32)}[k]
+        f1 = lambda: ctx.call(sig, L.homogeneous_matrix, t, off, restore=False)  # noqa: E731
+    elif fn == "as_homogeneous_matrix":
+        f1 = lambda: ctx.call(sig, L.as_homogeneous_matrix, t, restore=False)  # noqa: E731
+    elif fn in ("homogeneous_matmul", "hmm"):
+        f1 = lambda: ctx.call(sig, getattr(L, fn), t, b, restore=False)  # noqa: E731
+    else:
+        f1 = lambda: ctx.call(sig, L.homogeneous_transform, t, p, vectors=fn.endswith("[vectors]"), restore=False)  # noqa: E731
+    r1 = f1()
+    if r1 is None:
+        return
+    fp1 = tensor_bytes(r1)  # snapshot now: the result may alias the operand
+    snap1 = r1.detach().clone()
+    r2 = f1()
+    if r2 is None:
+        return
+    ctx.acc.outcome("reuse", D, f, fn, fp1)
+    ctx.acc.nontriv("reuse", D, f, fn)
+    if tensor_bytes(r2) != fp1:
+        ctx.bad(sig + "/second-call-differs", f"D={D} form {f}: two identical calls with the same operand objects returned different results (max diff {float((r2.detach().double() - snap1.double()).abs().max()):.3g})")
+    # the operand object, after having been used, composed with b and applied to p == sequential application of the GIVEN maps
+    exp_full = H.compose(H.full(vt), H.full(vb))
+    fexp = _expected_points(exp_full, vp)
+    c = ctx.call(sig + "/hmm-after-use", L.hmm, t, b, restore=False)
+    if c is None or fexp is None:
+        return
+    q = ctx.call(sig + "/apply-after-use", L.homogeneous_transform, c, p, restore=False)
+    if q is None:
+        return
+    scale = (float(np.abs(exp_full).max()) + 1) * (float(np.abs(vp).max()) + 1) * D * D
+    _cmp(ctx, sig + "/operand-map-changed", _np(q), fexp(False), C * EPS["f32"] * scale, f"D={D} form {f}: hmm(t, b) applied to points after t was used in {fn}", kind="value")
+    s1 = ctx.call(sig + "/sequential-after-use", L.homogeneous_transform, b, p, restore=False)
+    s2 = None if s1 is None else ctx.call(sig + "/sequential-after-use", L.homogeneous_transform, t, s1, restore=False)
+    if s2 is not None and s2.numel() == fexp(False).size:
+        _cmp(ctx, sig + "/operand-map-changed/sequential", _np(s2).reshape(fexp(False).shape), fexp(False), C * EPS["f32"] * scale, f"D={D} form {f}: t applied after b, after t was used in {fn}", kind="value")
+
+
 SUBS = {
+    "reuse": case_reuse,
     "matmul": case_matmul,
     "matmul3": case_matmul3,
     "transform": case_transform,
@@ -1082,6 +1168,10 @@ def cases_as_matrix(tier, seed):
             for mode in ("as_homogeneous_matrix", "as_homogeneous_matrix[f64]", "as_homogeneous_tensor", "homogeneous_matrix:none", "homogeneous_matrix:scalar", "homogeneous_matrix:(D,)", "homogeneous_matrix:(lead,D)"):
                 out.append({"sub": "as_matrix", "D": D, "form": f, "mode": mode, "seed": seed})
     return out
+
+
+def cases_reuse(tier, seed):
+    return [{"sub": "reuse", "D": D, "form": f, "fn": fn, "seed": seed} for D in (2, 3) for f in FORMS for fn in REUSE_FNS]
 
 
 def cases_euler(tier, seed):
@@ -1150,6 +1240,7 @@ GENERATORS = [
     ("matmul3", cases_matmul3, 60),
     ("transform", cases_transform, 40),
     ("as_matrix", cases_as_matrix, 20),
+    ("reuse", cases_reuse, 30),
     ("euler", cases_euler, 6),
     ("euler_angles", cases_euler_angles, 4),
     ("quat", cases_quat, 2),
